@@ -91,6 +91,28 @@ def builtin_and_optional_panics(mf, oc, scratch, profile, qs, timeout_ms, info):
         arm = s.kinds[0] + ("" if s.exponent is None else ",exp=%d" % s.exponent) + (",exp<0" if s.pre is not None else "")
         fs = Q.check_summary(s, profile, qs, timeout_ms=timeout_ms, seed=V.seed(), want_c05=False, want_c17=True, orc={"supported": False}, arm=arm)
         out += fs
+    # string -> number parsers on an arbitrary string (and arbitrary radix)
+    nat_tables = N.NativeBytecode(scratch)
+    disp, _ = c14_main.read_tables(scratch, nat_tables) if False else ({}, {})
+    for m, (extra, inner) in B.PARSERS.items():
+        variant = B.PARSER_VARIANTS[m]
+        inputs, kinds, res = bk.summarize_parser(m, variant)
+        ps = K.Summary(m, tuple(kinds), inputs, [], bk.fn, 0)
+        ps.via = "built-in"
+        panics = [pc for pc, kind, x in res if kind == "panic"]
+        if not panics:
+            qs.obligations += 1
+            qs.discharged += 1
+            continue
+        import z3
+        r, vals = Q.decide(z3.Or(*panics), ps, qs, timeout_ms, V.seed(), "%s[Str]/%s:C17-no-panic" % (m, profile))
+        if r == "sat":
+            msg = [x for pc, kind, x in res if kind == "panic"][0]
+            f = Q.Finding("C17", m, "Str", "panic:" + Q.panic_class(msg), profile, [("Str", 0x31)] + ([("Int", vals[1])] if len(vals) > 1 else []),
+                          "Rust panic `%s` in built-in %s" % (msg, m))
+            f.native_op = "B:" + m
+            f.predicted = ["PANIC"]
+            out.append(f)
     ker = K.Kernels(mf, oc, scratch.repo, seed=V.seed())
     ok_ = c12_main.OptKernels(ker, mf)
     for ins, iargs, kinds in c12_main.all_instances():
@@ -175,7 +197,7 @@ def report(prop, tier, findings, qs, info, t0):
             continue
         seen.add(f.key())
         print("KNOWN-FINDING: property=%s %s[%s] %s (%s profile): %s; witness %s -> %s" % (
-            prop, K.SYMBOL[f.op], f.arm, f.cls, f.profile, known[f.key()].get("what", f.detail),
+            prop, K.SYMBOL.get(f.op, f.op), f.arm, f.cls, f.profile, known[f.key()].get("what", f.detail),
             " ".join("%s:%s" % (k, hex(v)) for k, v in f.witness), " ".join(map(str, f.native))))
     exit_code = V.EXIT_OK
     if EMIT_KNOWN:
@@ -189,7 +211,7 @@ def report(prop, tier, findings, qs, info, t0):
         p = V.save_replay(prop, "%s_%s_%s_%s" % (f.op, f.arm.replace(",", "-"), f.cls.replace(":", "-"), f.profile), f.as_dict())
         print("VIOLATION property=%s replay=%s" % (prop, p))
         print("   %s[%s] %s (%s profile): %s; witness %s -> real code returns %s" % (
-            K.SYMBOL[f.op], f.arm, f.cls, f.profile, f.detail, " ".join("%s:%s" % (k, hex(v)) for k, v in f.witness), " ".join(map(str, f.native))))
+            K.SYMBOL.get(f.op, f.op), f.arm, f.cls, f.profile, f.detail, " ".join("%s:%s" % (k, hex(v)) for k, v in f.witness), " ".join(map(str, f.native))))
         exit_code = V.EXIT_VIOLATION
     if bad_replay or qs.undecided:
         for f in bad_replay[:10]:
